@@ -336,6 +336,24 @@ func runC03(r *Report) {
 						okKey = true
 					}
 				}
+				// any function of the package that computes HMAC(key param, message param), whatever its name
+				Instrs(vr, func(in ssa.Instruction) {
+					hc, ok := in.(*ssa.Call)
+					if !ok {
+						return
+					}
+					g := hc.Common().StaticCallee()
+					if g == nil || g.Pkg != vr.Pkg || len(g.Blocks) == 0 {
+						return
+					}
+					ki, mi := hmacKeyedParams(g, 2)
+					if ki < 0 || mi < 0 || ki >= len(hc.Call.Args) || mi >= len(hc.Call.Args) {
+						return
+					}
+					if kc, idx := CallOfValue(hc.Call.Args[ki]); kc != nil && len(decs) == 1 && ssa.CallInstruction(kc) == decs[0] && idx == 0 && originSummary(hc.Call.Args[mi]) == "param:challenge" {
+						okKey = true
+					}
+				})
 				// the same computation written in place: hmac.New keyed with the decrypted secret, fed
 				// with the challenge
 				for _, hn := range Calls(vr, false, "hmac:New") {
@@ -382,6 +400,9 @@ func runC03(r *Report) {
 			if originSummary(Arg(h, 1)) == "param:secretKey" {
 				ok = true
 			}
+		}
+		if ki, _ := hmacKeyedParams(cr, 2); ki >= 0 && ki < len(cr.Params) && canonParamName(cr.Params[ki]) == "secretKey" {
+			ok = true
 		}
 		r.Ob("R-C03-6", cr.Pos(), ok, "the expected response is an HMAC keyed with the secret", "ComputeResponse", "hmac-keyed-with-secret")
 	}
@@ -969,4 +990,66 @@ func isErrorConstructor(c *ssa.Call) bool {
 		return true
 	}
 	return false
+}
+
+// hmacKeyedParams: f computes an HMAC keyed with one of its parameters over another of its
+// parameters, itself or through a same-package function it hands them to; returns their indices in
+// f.Params (-1, -1 otherwise).
+func hmacKeyedParams(f *ssa.Function, depth int) (keyIdx, msgIdx int) {
+	keyIdx, msgIdx = -1, -1
+	pidx := func(v ssa.Value) int {
+		for _, rt := range Origins(v) {
+			if p, ok := rt.V.(*ssa.Parameter); ok {
+				for i, q := range f.Params {
+					if q == p {
+						return i
+					}
+				}
+			}
+		}
+		return -1
+	}
+	for _, hn := range Calls(f, false, "hmac:New") {
+		if i := pidx(Arg(hn, 1)); i >= 0 {
+			keyIdx = i
+		}
+	}
+	if keyIdx >= 0 {
+		for _, w := range Calls(f, false, "Write") {
+			if b := bufArg(w); b != nil {
+				if i := pidx(b); i >= 0 && i != keyIdx {
+					msgIdx = i
+				}
+			}
+		}
+		if msgIdx >= 0 {
+			return
+		}
+	}
+	if depth <= 0 {
+		return -1, -1
+	}
+	found := false
+	Instrs(f, func(in ssa.Instruction) {
+		hc, ok := in.(*ssa.Call)
+		if !ok || found {
+			return
+		}
+		g := hc.Common().StaticCallee()
+		if g == nil || g.Pkg != f.Pkg || len(g.Blocks) == 0 || g == f {
+			return
+		}
+		ki, mi := hmacKeyedParams(g, depth-1)
+		if ki < 0 || mi < 0 || ki >= len(hc.Call.Args) || mi >= len(hc.Call.Args) {
+			return
+		}
+		a, b := pidx(hc.Call.Args[ki]), pidx(hc.Call.Args[mi])
+		if a >= 0 && b >= 0 {
+			keyIdx, msgIdx, found = a, b, true
+		}
+	})
+	if !found {
+		return -1, -1
+	}
+	return
 }
